@@ -15,6 +15,9 @@ E21 == Shell(1, 2, 3, 21, 5)
 \* nearly flat facets (tip bevels) sit next to a sharp ridge; and a flat slab with a low pyramid on top
 Blade == { <<4, 3, 0>>, <<-4, 3, 0>>, <<4, -3, 0>>, <<-4, -3, 0>>, <<0, 3, 8>>, <<0, -3, 8>>, <<0, 0, 9>> }
 Slab == { <<5, 4, 0>>, <<-5, 4, 0>>, <<5, -4, 0>>, <<-5, -4, 0>>, <<4, 3, 1>>, <<-4, 3, 1>>, <<4, -3, 1>>, <<-4, -3, 1>>, <<0, 0, 2>> }
+\* a wedge whose ridge is sharp only on the short stretch (0,-1,0)-(0,0,0); behind it a nearly flat bevel facet descends:
+\* the nearest feature of points above the tip is not on the facet they are furthest outside of
+Ridge == { <<4, -16, -8>>, <<-4, -16, -8>>, <<1, -16, -2>>, <<-1, -16, -2>>, <<0, -1, 0>>, <<0, 0, 0>>, <<4, 0, -8>>, <<-4, 0, -8>> }
 Zero == <<0, 0, 0>>
 Far == <<40, -30, 20>>
 =============================================================================
